@@ -25,8 +25,8 @@ META = dict(
          "solver statistics, warnings) must be bit-identical to the run without a pool; stack pointer restored; no "
          "deadlock/livelock. The TSan build runs the same calls free-running with pools 0..8 and must report no race.",
     note="Sequentially consistent atomics; plain accesses are not scheduling points (delegated to the TSan companion, "
-         "which samples OS schedules); the tactile-sensor dispatch (>=1000 taxels on an SDF contact) is not exercised "
-         "because marching-cubes/SDF mesh generation is inert in this sandbox.",
+         "which samples OS schedules); the tactile-sensor dispatch is exercised with a builtin plate mesh of 1073 taxels "
+         "(file-based / SDF pads need decoders that are inert in this sandbox).",
     design_ref="DESIGN.md §3 C02")
 
 
@@ -48,6 +48,23 @@ MODELS = {
     "isl4_stack": _spheres(4, 'solver="Newton"').replace('<body pos="3 0 .099">', '<body pos="0 0 .298">'),
     # 17 plane contacts: narrow phase splits into 2 chunks of 16/1 (chunks are >= 16 pairs)
     "pairs17": _spheres(17, 'solver="PGS" iterations="3"'),
+    # tactile pad with 37x29 = 1073 taxels (>= 1000: the sensor's task-parallel path); one sphere presses on the taxels
+    # with the highest indices, so a partition that drops a remainder of the taxels is visible
+    "tactile": """<mujoco>
+  <option timestep="0.002"/>
+  <asset><mesh name="pad" builtin="plate" params="37 29" scale=".3 .5 .2"/></asset>
+  <worldbody>
+    <geom name="ball1" type="sphere" size=".25" pos="0.2918919 0.48275861 1.2"/>
+    <geom name="ball2" type="sphere" size=".15" pos="-0.05 0.1 1.1"/>
+    <body name="finger" pos="0 0 1">
+      <freejoint/>
+      <geom type="box" size=".3 .5 .02" mass="0.1"/>
+      <geom name="finger" type="mesh" mesh="pad" pos="0 0 .2" mass="0" contype="0" conaffinity="0"/>
+    </body>
+  </worldbody>
+  <sensor><tactile name="pad" geom="finger" mesh="pad"/></sensor>
+</mujoco>
+""",
 }
 
 
@@ -158,6 +175,8 @@ def run(ctx):
         for call in calls:
             for workers in ((1, 2) if not ctx.thorough else (1, 2, 3)):
                 if name == "pairs17" and (workers > 2 or (not ctx.thorough and call != "step")):
+                    continue
+                if name == "tactile" and (call not in ("forward", "step") or (not ctx.thorough and call != "forward")):
                     continue
                 for s in range(nsh):
                     jobs.append((x, name, call, workers, bound, s, nsh, cap))
